@@ -183,6 +183,105 @@ class Lin(ast.NodeVisitor):
         self.out.append(("call", name))
 
 
+# ---- writes through what a function was given --------------------------------------------------------------------------
+# `scrub` turns the grammar's result into the tree and `format` turns a tree into text: neither may write into the objects
+# it is handed (the grammar puts one Call object under several parents; the caller keeps the tree it formats).  The analysis
+# is flow-insensitive: a name is "given" when it is a parameter (of the function or of a function nested in it) or bound
+# to a part of something given (subscript, attribute, .get / .items / .values, iteration); a write is an assignment to,
+# deletion of, or mutating method call on a part of something given.  Rebinding a name to a fresh object does not clear it,
+# so the answer may over-approximate; on the pinned tree it is empty.
+MUTATORS = {"append", "extend", "update", "pop", "insert", "clear", "setdefault", "sort", "reverse", "remove", "popitem", "add", "discard", "__setitem__", "__delitem__"}
+VIEW_METHODS = {"get", "items", "values", "keys", "copy_ref"}
+VIEW_FUNCS = {"enumerate", "reversed", "iter", "zip", "listwrap", "first", "next", "sorted_ref"}
+
+
+def argument_writes(mod, func):
+    """writes through objects reachable from the parameters of `func` (flow-insensitive, may over-approximate)"""
+    tainted = set()
+    for f in ast.walk(func):
+        if isinstance(f, (ast.FunctionDef, ast.Lambda)):
+            a = f.args
+            for x in a.posonlyargs + a.args + a.kwonlyargs + ([a.vararg] if a.vararg else []) + ([a.kwarg] if a.kwarg else []):
+                if x.arg not in ("self", "cls"):
+                    tainted.add(x.arg)
+
+    def view(e):
+        if isinstance(e, ast.Name):
+            return e.id in tainted
+        if isinstance(e, (ast.Subscript, ast.Attribute, ast.Starred)):
+            return view(e.value)
+        if isinstance(e, ast.Call):
+            f = e.func
+            if isinstance(f, ast.Attribute) and f.attr in VIEW_METHODS:
+                return view(f.value)
+            if isinstance(f, ast.Name) and f.id in VIEW_FUNCS:
+                return any(view(a) for a in e.args)
+            return False
+        if isinstance(e, ast.IfExp):
+            return view(e.body) or view(e.orelse)
+        if isinstance(e, ast.BoolOp):
+            return any(view(v) for v in e.values)
+        if isinstance(e, ast.NamedExpr):
+            return view(e.value)
+        return False
+
+    def bind(t):
+        new = False
+        for n in ast.walk(t):
+            if isinstance(n, ast.Name) and n.id not in tainted:
+                tainted.add(n.id)
+                new = True
+        return new
+
+    changed = True
+    while changed:
+        changed = False
+        for n in ast.walk(func):
+            if isinstance(n, ast.Assign) and view(n.value):
+                for t in n.targets:
+                    if isinstance(t, (ast.Name, ast.Tuple, ast.List)):
+                        changed |= bind(t)
+            elif isinstance(n, (ast.For, ast.comprehension)) and view(n.iter):
+                changed |= bind(n.target)
+            elif isinstance(n, ast.NamedExpr) and view(n.value):
+                changed |= bind(n.target)
+            elif isinstance(n, ast.withitem) and n.optional_vars is not None and view(n.context_expr):
+                changed |= bind(n.optional_vars)
+    out = []
+
+    def target_write(t, how):
+        if isinstance(t, (ast.Subscript, ast.Attribute)) and view(t.value):
+            out.append("%s.%s:%s %s" % (mod, func.name, how, ast.unparse(t)))
+        elif isinstance(t, (ast.Tuple, ast.List)):
+            for x in t.elts:
+                target_write(x, how)
+
+    for n in ast.walk(func):
+        if isinstance(n, ast.Assign):
+            for t in n.targets:
+                target_write(t, "set")
+        elif isinstance(n, ast.AugAssign):
+            target_write(n.target, "aug")
+        elif isinstance(n, ast.AnnAssign) and n.value is not None:
+            target_write(n.target, "set")
+        elif isinstance(n, ast.Delete):
+            for t in n.targets:
+                target_write(t, "del")
+        elif isinstance(n, ast.Call) and isinstance(n.func, ast.Attribute) and n.func.attr in MUTATORS and view(n.func.value):
+            out.append("%s.%s:call %s.%s" % (mod, func.name, ast.unparse(n.func.value), n.func.attr))
+    return sorted(set(out))
+
+
+def all_argument_writes(repo):
+    out = []
+    for mod, names in (("formatting", None), ("utils", {"scrub"})):
+        tree = ast.parse(open(os.path.join(repo, "mo_sql_parsing", mod + ".py"), encoding="utf8").read())
+        for n in ast.walk(tree):
+            if isinstance(n, ast.FunctionDef) and (names is None or n.name in names):
+                out += argument_writes(mod, n)
+    return sorted(set(out))
+
+
 def extract(X, repo):
     pkg = os.path.join(repo, "mo_sql_parsing")
     trees = {}
@@ -488,6 +587,7 @@ def extract(X, repo):
         "callers": sorted(callers),
         "global_rebinds": sorted("%s.%s" % x for x in global_rebinds),
         "cross_module_writes": sorted(written_elsewhere),
+        "argument_writes": all_argument_writes(repo),
     }
 
 
@@ -535,6 +635,9 @@ def gen_lean(X, lean_str):
     lines.append("")
     lines.append("/-- what `utils.scrub` returns for an empty Python dict: the input object or a new one -/")
     lines.append("def scrubEmptyDict : String := %s" % lean_str(e.get("scrub_empty_dict", "?")))
+    lines.append("")
+    lines.append("/-- writes of `utils.scrub` and of the functions of `formatting.py` into objects they were given (parameters and their parts) -/")
+    lines.append("def argumentWrites : List String := [%s]" % ", ".join(lean_str(x) for x in e.get("argument_writes", [])))
     lines.append("")
     lines.append("/-- the expression `_parse` stores into every recorded NULL slot -/")
     lines.append("def nullSlotValue : String := %s" % lean_str(e.get("null_slot_value", "?")))
